@@ -283,8 +283,17 @@ func zcClone(src *ZeroCopySource) *ZeroCopySource {
 	return &ZeroCopySource{s: src.s, off: src.off}
 }
 
+// the unread rest of the buffer for the legacy reader; a cursor outside the buffer (itself a violation, reported
+// through Off > Len) must not crash the harness
+func zcRest(src *ZeroCopySource) []byte {
+	if src.off > uint64(len(src.s)) {
+		return nil
+	}
+	return src.s[src.off:]
+}
+
 func zcReadStep(src *ZeroCopySource, a zcAct) zcRes {
-	rest := src.s[src.off:]
+	rest := zcRest(src)
 	if a.N >= zcHuge && (a.Name == "NextBytes" || a.Name == "Skip") {
 		var first zcRes
 		diff := ""
@@ -424,7 +433,7 @@ func TestVerifZCReplay(t *testing.T) {
 				// read everything back with the real readers
 				rs := NewZeroCopySource(append([]byte{}, sink.Bytes()...))
 				for _, it := range items {
-					rest := rs.s[rs.off:]
+					rest := zcRest(rs)
 					rb := zcRead(rs, zcReaderOf(it.T), uint64(len(it.V)))
 					r.RB = append(r.RB, rb)
 					lg := zcLegacy(rest, zcReaderOf(it.T), uint64(len(it.V)))
